@@ -211,6 +211,21 @@ def k_origin(run, case):
         ref = {**ref, "p": ref["p"][:max(1, N // 2)], "R": ref["R"][:max(1, N // 2)],
                "t": ref["t"][:max(1, N // 2)]}
     stamped = bool(rng.random() < .5)
+    u = rng.random()
+    if u < .25:
+        # both recordings start at the same point (the origin, or a common start position) but in
+        # different frames (camera vs. body): first positions identical, first attitudes not; or the
+        # same first attitude at different positions; or the same first pose altogether
+        start = np.zeros(3) if rng.random() < .5 else ref["p"][0].copy()
+        est = {**est, "p": est["p"] - est["p"][0] + start}
+        ref = {**ref, "p": ref["p"] - ref["p"][0] + start}
+        est["p"][0], ref["p"][0] = start, start.copy()
+        if u < .06:
+            est = {**est, "R": np.array([ref["R"][0] @ est["R"][0].T @ Rk for Rk in est["R"]])}
+            est["R"][0] = ref["R"][0].copy()
+    elif u < .33:
+        est = {**est, "R": np.array([ref["R"][0] @ est["R"][0].T @ Rk for Rk in est["R"]])}
+        est["R"][0] = ref["R"][0].copy()
     t_ref, t_est = gen.make_evo(ref, storage, stamped), gen.make_evo(est, storage, stamped)
     if rng.random() < .3:
         t_est.positions_xyz, t_est.poses_se3, t_est.orientations_quat_wxyz
